@@ -421,7 +421,34 @@ func runCodecUnit(u Unit) UnitResult {
 		cancel()
 		return res
 	}
-	r.SaveToStore()
+	// The runner's own persist loop may have a save in flight that started before the last job finished; its rename
+	// can land after the one of an explicit save (two saves are not ordered with respect to each other while the
+	// runner is alive). Save until the file on disk shows every job finished on two consecutive looks.
+	settled := 0
+	for attempt := 0; attempt < 200 && settled < 2; attempt++ {
+		r.SaveToStore()
+		time.Sleep(20 * time.Millisecond)
+		pd, lerr := ds.Load()
+		ok := lerr == nil && pd != nil && len(pd.Jobs) == njobs
+		if ok {
+			for _, pj := range pd.Jobs {
+				if !pj.Completed && !pj.Canceled {
+					ok = false
+				}
+			}
+		}
+		if ok {
+			settled++
+		} else {
+			settled = 0
+		}
+	}
+	if settled < 2 {
+		res.Exhaustive = false
+		res.Caps = append(res.Caps, "the store did not settle on the final state of the codec jobs: inconclusive")
+		cancel()
+		return res
+	}
 	a := reportOf(r)
 	ds2, _ := store.NewJSONDataStore(dir)
 	r2, err := prunner.NewPipelineRunner(ctx, defs, func(j *prunner.PipelineJob) taskctl.Runner { return &nullRunner{} }, ds2, nopOutputStore{})
